@@ -33,6 +33,10 @@ class InvPair:
         if self.pos and not decide(uz > 0):
             raise ValueError('%s of a non-positive number' % self.fname)
         t = self.f(uz)
+        seen = reg.setdefault('f_ids', set())
+        if uz.get_id() in seen:
+            return SReal(t)         # same argument term as before: the axioms are already instantiated
+        seen.add(uz.get_id())
         s = c.solver
         # inverse: g(f(u)) = u
         s.add(self.g(t) == uz)
@@ -48,6 +52,10 @@ class InvPair:
         c = Ctx.cur
         reg = self._reg()
         w = self.g(vz)
+        seen = reg.setdefault('g_ids', set())
+        if vz.get_id() in seen:
+            return SReal(w)
+        seen.add(vz.get_id())
         s = c.solver
         if self.pos:
             s.add(w > 0)
